@@ -685,13 +685,10 @@ class Threads(EngineBase):
                 # was still running inside it (it may store into the cache
                 # late: memoize_when_activated's KeyError -> store window)
                 for t2, recs2 in enumerate(records):
-                    if t2 == t:
-                        continue
                     for r2 in recs2:
                         if r2.get("v0", 10 ** 9) < vlo <= r2.get(
                                 "v1", -1) and r2["op"]["op"] == "get":
-                            extra.append("other_thread_call_spans_block_"
-                                         "start")
+                            extra.append("plain_call_spans_block_start")
                 V("C16.valid_value", [ctx] + extra, name,
                   "thread %d: %s() -> %r is "
                   "not the answer for any kernel version in [%d, %d] "
